@@ -230,7 +230,8 @@ Imp(nm) == [m |-> "env", n |-> nm, kind |-> "func", p |-> Host[nm].p, r |-> Host
 Nominal == [fl |-> "none", start |-> FALSE,
             memDefs |-> 1, memInit |-> 1, memMax |-> -1, memExp |-> "memory",
             tabDefs |-> 1, tabInit |-> 1,
-            funcs |-> 2, at |-> 2, params |-> 1, locals |-> 1, globals |-> 1, brt |-> 2,
+            funcs |-> 2, at |-> 2, params |-> 1, params64 |-> 0, locals |-> 1, locals64 |-> 0, locals3 |-> 0,
+            globals |-> 1, brt |-> 2, brt2 |-> -1,
             imps |-> <<Imp("sys_generate_ruid")>>,
             xname |-> [on |-> FALSE, s |-> "x"], dupExp |-> FALSE,
             bp |-> "ok", prop |-> "none",
@@ -273,10 +274,10 @@ Struct(d) ==
        nimpFuncs |-> CountImp(d, "func"),
        memExp |-> B2N(HasMem(d) /\ d.memExp = "memory"),
        nfuncs |-> d.funcs + B2N(FltFn(d)) + B2N(PropFn(d)) + B2N(d.start),
-       maxParams |-> Max2(d.params, 1),
-       maxLocals |-> Max2(d.locals, B2N(d.fl = "local")),
+       maxParams |-> Max2(d.params + d.params64, 1),
+       maxLocals |-> Max2(d.locals + d.locals64 + d.locals3, B2N(d.fl = "local")),
        nglobals |-> d.globals + B2N(d.fl = "global") + B2N(d.prop \in {"mutglobal", "extconst"}),
-       maxBrt |-> d.brt,
+       maxBrt |-> Max2(d.brt, d.brt2),
        localCalls |-> 0,
        entryFuncs |-> B2N(TestExported(d)) + B2N(CarrierNames(d) # {} \/ ElemOn(d)),
        dataSegs |-> B2N(DataOn(d)),
@@ -289,7 +290,7 @@ Struct(d) ==
             [i \in 1..Len(carrierNames) |-> <<carrierNames[i], "func">>] >>),
        expSigs |-> Concat(<<
             IF TestExported(d) THEN <<testSig>> ELSE <<>>,
-            [i \in 1..Len(carrierNames) |-> <<carrierNames[i], Rep("i32", d.params), None>>] >>) ]
+            [i \in 1..Len(carrierNames) |-> <<carrierNames[i], Rep("i32", d.params) \o Rep("i64", d.params64), None>>] >>) ]
 
 \* ModuleInfo::new fails (reported as DeserializationError) on duplicate export names and on
 \* sections it does not know (the tag section of the exception-handling proposal)
@@ -366,6 +367,19 @@ VarSeq ==
      V("at", [at |-> 1]),
      V("params", [params |-> 0]), V("params", [params |-> 31]), V("params", [params |-> 32]), V("params", [params |-> 33]),
      V("locals", [locals |-> 0]), V("locals", [locals |-> 255]), V("locals", [locals |-> 256]), V("locals", [locals |-> 257]),
+     \* what the validator SUMS or takes the MAXIMUM of: several local groups / parameter types / br_tables, so that
+     \* "sum" is distinguished from "last group", "first group", "largest group", "last instruction"
+     V("locals", [locals |-> 255, locals64 |-> 1]), V("locals", [locals |-> 128, locals64 |-> 128]),
+     V("locals", [locals |-> 128, locals64 |-> 129]), V("locals", [locals |-> 1, locals64 |-> 256]),
+     V("locals", [locals |-> 256, locals64 |-> 1]), V("locals", [locals |-> 257, locals64 |-> 1]),
+     V("locals", [locals |-> 200, locals64 |-> 200]), V("locals", [locals |-> 100, locals64 |-> 100, locals3 |-> 56]),
+     V("locals", [locals |-> 100, locals64 |-> 100, locals3 |-> 57]), V("locals", [locals |-> 1, locals64 |-> 255, locals3 |-> 1]),
+     V("locals", [locals |-> 0, locals64 |-> 257]), V("locals", [locals |-> 0, locals64 |-> 256]),
+     V("params", [params |-> 16, params64 |-> 16]), V("params", [params |-> 16, params64 |-> 17]),
+     V("params", [params |-> 1, params64 |-> 32]), V("params", [params |-> 32, params64 |-> 1]),
+     V("params", [params |-> 0, params64 |-> 33]), V("params", [params |-> 0, params64 |-> 32]),
+     V("brt", [brt |-> 257, brt2 |-> 0]), V("brt", [brt |-> 0, brt2 |-> 257]), V("brt", [brt |-> 256, brt2 |-> 256]),
+     V("brt", [brt |-> -1, brt2 |-> 257]),
      V("globals", [globals |-> 0]), V("globals", [globals |-> 511]), V("globals", [globals |-> 512]), V("globals", [globals |-> 513]),
      V("brt", [brt |-> -1]), V("brt", [brt |-> 0]), V("brt", [brt |-> 255]), V("brt", [brt |-> 256]), V("brt", [brt |-> 257]),
      V("dup", [dupExp |-> TRUE]),
@@ -428,7 +442,7 @@ Laws(c) ==
    the parameter count of function indices 0 .. num_local_functions-1 of the COMBINED index
    space, so with k imported functions the last k local functions are never checked.        *)
 CarrierPos(d) == d.at
-ParamsEscape(d) == d.params > MaxParams /\ CountImp(d, "func") + CarrierPos(d) > Struct(d).nfuncs
+ParamsEscape(d) == d.params + d.params64 > MaxParams /\ CountImp(d, "func") + CarrierPos(d) > Struct(d).nfuncs
 \* ... and the parameter rule is the only rule the module breaks at this version
 OnlyParamsBroken(d, v) ==
   LET s == Struct(d)
